@@ -310,15 +310,43 @@ def _index(interp, idx):
     raise Unsupported(f"index {idx!r}")
 
 
+def clean_bounds(interp, lo, hi, n):
+    """(start, stop) of a slice against length n; uses the path condition to drop the
+    normalisation case splits when the bounds are provably in range"""
+    def one(i, default):
+        if i is None:
+            return default
+        try:
+            if interp.ctx.implied(z3.And(i >= 0, i <= n)):
+                return i
+        except Exception:  # noqa: BLE001
+            pass
+        return ops.norm_index(i, n)
+    s = one(lo, z3.IntVal(0))
+    e = one(hi, n)
+    try:
+        if interp.ctx.implied(e >= s):
+            return s, e
+    except Exception:  # noqa: BLE001
+        pass
+    return s, z3.If(e < s, s, e)
+
+
+def bslice(interp, z, lo, hi):
+    n = z3.Length(z)
+    s, e = clean_bounds(interp, lo, hi, n)
+    return z3.SubString(z, s, e - s)
+
+
 def getitem(interp, obj, idx, node):
     if isinstance(idx, tuple) and idx and idx[0] == "slice":
         _, lo, hi = idx
         lo = as_int(lo) if lo is not None else None
         hi = as_int(hi) if hi is not None else None
         if isinstance(obj, VStr):
-            return VStr(str_slice(obj.z, lo, hi), obj.kind)
+            return VStr(bslice(interp, obj.z, lo, hi), obj.kind)
         if isinstance(obj, VByteArray):
-            return VByteArray(str_slice(obj.z, lo, hi), obj.fixed)
+            return VByteArray(bslice(interp, obj.z, lo, hi), obj.fixed)
         if isinstance(obj, (VTuple, VList)) and (isinstance(obj, VTuple) or obj.concrete):
             n = len(obj.items)
             s, e = slice_bounds(lo, hi, z3.IntVal(n))
@@ -418,13 +446,22 @@ def setitem(interp, obj, idx, v, node):
             if not isinstance(v, (VStr, VByteArray)):
                 raise Unsupported("bytearray slice assignment from non-bytes")
             n = z3.Length(obj.z)
-            s, e = slice_bounds(lo, hi, n)
-            e = z3.If(e < s, s, e)
+            s, e = clean_bounds(interp, lo, hi, n)
             if obj.fixed:
                 # memoryview: lengths must agree, else ValueError
                 if not interp.branch(z3.Length(v.z) == e - s, "mv-slice-len"):
                     interp.raise_("ValueError", node=node)
-            obj.z = z3.Concat(z3.SubString(obj.z, 0, s), v.z, z3.SubString(obj.z, e, n - e))
+            head = z3.SubString(obj.z, 0, s)
+            tail = z3.SubString(obj.z, e, n - e)
+            new = z3.String(interp.ctx.fresh_name("ba"))
+            interp.ctx.assume(new == z3.Concat(head, v.z, tail), "bytearray-slice-store:def")
+            # consequences of the definition (given 0 <= s <= e <= n), stated to help the solver
+            lv = z3.Length(v.z)
+            interp.ctx.assume(z3.Length(new) == s + lv + (n - e), "bytearray-slice-store:len")
+            interp.ctx.assume(z3.SubString(new, 0, s) == head, "bytearray-slice-store:head")
+            interp.ctx.assume(z3.SubString(new, s, lv) == v.z, "bytearray-slice-store:mid")
+            interp.ctx.assume(z3.SubString(new, s + lv, n - e) == tail, "bytearray-slice-store:tail")
+            obj.z = new
             return
         if isinstance(obj, VList):
             return list_set_slice(interp, obj, lo, hi, v, node)
@@ -476,8 +513,7 @@ def delitem(interp, obj, idx, node):
             if obj.fixed:
                 interp.raise_("TypeError", node=node)
             n = z3.Length(obj.z)
-            s, e = slice_bounds(lo, hi, n)
-            e = z3.If(e < s, s, e)
+            s, e = clean_bounds(interp, lo, hi, n)
             obj.z = z3.Concat(z3.SubString(obj.z, 0, s), z3.SubString(obj.z, e, n - e))
             return
         if isinstance(obj, VList):
@@ -1140,6 +1176,8 @@ def isinstance_z(it, v, cls):
             for c in v.cls.mro():
                 names.append(c.name if isinstance(c, ClassInfo) else str(c).split(".")[-1])
             return z3.BoolVal(short in names or short == "object")
+        if isinstance(v.cls, str) and v.model is None:
+            return z3.BoolVal(v.cls.split(".")[-1] == short or short == "object")
         tags = getattr(v.model, "isinstance", None) if v.model is not None else None
         if tags is not None:
             return z3.BoolVal(short in tags)
@@ -1281,11 +1319,18 @@ def _bytearray(it, a, k, n):
     v = it.need(a[0])
     if isinstance(v, (VInt, VBool)):
         size = as_int(v)
+        cs = concrete_int(size)
+        if cs is not None and cs >= 4096:
+            # generalisation of large literal sizes: proved for EVERY size >= 1 instead of the
+            # literal (sound over-approximation; z3's sequence solver cannot build 64 KiB models)
+            size = z3.Int(f"bigsize_{cs}")
+            it.ctx.assume(size >= 1, "bytearray(n):large-literal-generalised")
         if not it.branch(size >= 0, "bytearray-size"):
             it.raise_("ValueError", node=n)
         z = z3.String(it.ctx.fresh_name("zeros"))
+        # only the length is recorded; that the bytes are zero is deliberately forgotten (weaker
+        # assumption, sound): correct code never looks at them
         it.ctx.assume(z3.Length(z) == size, "bytearray(n):len")
-        it.ctx.assume(z3.InRe(z, z3.Star(z3.Re(z3.StringVal("\x00")))), "bytearray(n):zeros")
         return VByteArray(z)
     if isinstance(v, (VStr, VByteArray)):
         return VByteArray(v.z)
@@ -1478,7 +1523,28 @@ def _id(it, a, k, n):
     return VInt(getattr(v, "id", 0))
 
 
+def _re_in(it, a, k, n):
+    """spec helper: re_in(s, pattern) -- s fully matches the (ASCII-mode) pattern"""
+    from . import rx
+    s_ = a[0]
+    pat = concrete_str(a[1].z)
+    R, _, _, _ = rx.lang(VRegex(pat, 256, s_.kind == "bytes"))
+    return VBool(z3.InRe(s_.z, R))
+
+
+def _str_to_int(it, a, k, n):
+    """spec helper: int(s) for s in -?[0-9]+ (the abstract value function of the trusted int() spec)"""
+    from . import strlib
+    return VInt(strlib.INT_VAL(a[0].z, z3.IntVal(10)))
+
+
+def _int_max_digits(it, a, k, n):
+    from . import strlib
+    return VInt(strlib.MAX_DIGITS)
+
+
 _BUILTINS = {
+    "re_in": _re_in, "str_to_int": _str_to_int, "int_max_digits": _int_max_digits,
     "len": _len, "min": _minmax(True), "max": _minmax(False), "isinstance": _isinstance,
     "hasattr": _hasattr, "getattr": _getattr, "int": _int, "str": _str, "bool": _bool, "float": _float,
     "bytes": _bytes, "bytearray": _bytearray, "list": _list, "tuple": _tuple, "dict": _dict, "set": _set,
@@ -1520,6 +1586,14 @@ class _TypeCallable(VClass):
 
 
 CTORS = {}
+
+
+def _bytesio(it, a, k, n):
+    init = it.need(a[0]) if a else VStr(b"", "bytes")
+    return VObj("BytesIO", {"initial": init, "pos": VInt(0)})
+
+
+CTORS["BytesIO"] = _bytesio
 
 
 def _install_type_ctors():
